@@ -9,13 +9,32 @@ RULE = ("the real Balancer (n_jobs=1, default threshold) on corpus reactions (qu
         "columns of all rows + the seven statistics) and every row is checked by RDKit-only oracles.  Non-trivial: a row that some "
         "stage edited (water insertion, completion, MCS append) before it was declined, or a declined carbon-deficit row, or a solved "
         "row; distinct = distinct input reaction.")
-ASSUMPTIONS = ["oracle answers (decompose, carbon counts, can_parse, MCS state, impute_reaction, PostProcess, confidence) are recorded from the real run and are functions of the row's strings (conflicting recordings are counted as timing_unstable and excluded)",
+ASSUMPTIONS = ["H1/H2/H3 of C03_solved_rows_have_empty_or_absent_issue and C03_carbon_deficit_declined (impute needs an empty search issue; inserted water never balances; impute refuses carbon deficit) -- checked on the recorded answers of every batch", "oracle answers (decompose, carbon counts, can_parse, MCS state, impute_reaction, PostProcess, confidence) are recorded from the real run and are functions of the row's strings (conflicting recordings are counted as timing_unstable and excluded)",
                "joblib runs in-process with n_jobs=1, so module-attribute wrappers observe every call"]
 TRUSTED = ["RDKit for the independent oracles"]
 METHODS = ("input-balanced", "rule-based", "mcs-based")
 
 
+def hypotheses(ctx, b):
+    """the oracle facts the two last C03 theorems assume (H1, H2, H3), checked on the recorded answers of this batch"""
+    ms = {k: v for k, v in b["tables"]["mcs_state"]}
+    dec = {k for k, v in b["tables"]["decomp"]}
+    for k, v in b["tables"]["impute"]:
+        if v[0] != "ok":
+            continue
+        ctx.count("hypotheses", "H1_H3_checked")
+        if k in ms and (ms[k][1] or "") != "":
+            ctx.mismatch("oracle hypothesis H1 (impute_reaction succeeds only on an empty search issue)", k, ms[k], None)
+        if k.count(">>") == 1:
+            l, p = k.split(">>")
+            cl, cp = pipe.carbons(l), pipe.carbons(p)
+            if cl is not None and cp is not None and cp > cl:
+                ctx.mismatch("oracle hypothesis H3 (impute_reaction refuses reactant-side carbon imbalance)", k, v[1], None)
+    # H2 is evaluated inside Coq on the model's own water step with the recorded composition tables (see run())
+
+
 def oracle(ctx, b):
+    hypotheses(ctx, b)
     edited = {k for k, v in b["tables"]["impute"] if v[0] == "ok"}
     for inp, r in zip(b["inputs"], b["rows"]) if len(b["inputs"]) == len(b["rows"]) else []:
         ctx.evaluations += 1
@@ -91,6 +110,29 @@ def run(ctx):
     ctx.sample({"input": bs[0]["inputs"][0], "row": bs[0]["rows"][0] if bs[0]["rows"] else None})
     ctx.sample({"input": gs[0]["inputs"][0], "row": gs[0]["rows"][0] if gs[0]["rows"] else None})
     pipe.eval_pipeline_cases(ctx, bs + gs, "c03")
+    # H2 (inserted water alone never balances): the model's water step on every admitted reaction of every batch
+    H2_HDR = pipe.PIPE_HDR.replace("Model.Pipeline ", "Model.Pipeline Proofs.Balanced ")
+    H2_DEFS = pipe.PIPE_DEFS + """
+Definition h2case (o : oracles) (s : string) : bool :=
+  let r := validate o M_INPUT true false None (mkRow 0 s s false None None CBalanced None None None) in
+  let w := rb_water o r in implb (bal o (rxn w)) (String.eqb (rxn w) (rxn r)).
+"""
+    exprs, meta = [], []
+    for b in bs + gs:
+        if b["conflicts"]:
+            continue
+        try:
+            ss = [k for k, v in b["tables"]["parse"] if v]
+            exprs.append("forallb (h2case %s) %s" % (pipe.coq_oracle(b), clist(ss, cstr))); meta.append(b["inputs"][:3])
+            ctx.count("hypotheses", "H2_checked_reactions", len(ss))
+        except (TypeError, ValueError):
+            pass
+    sh("timeout 900 make -j%d Proofs/Balanced.vo 2>&1" % NPROC, cwd=COQ)
+    bad, errors = eval_cases("c03h2", H2_HDR, H2_DEFS, exprs, ctx.work, shard=8)
+    for fn, o in errors:
+        ctx.broken.append({"what": "case file did not evaluate", "where": fn, "detail": o})
+    for i in bad:
+        ctx.mismatch("oracle hypothesis H2 (inserted water alone never balances a reaction)", meta[i], None, None)
 
 
 def replay(ctx, rep):
